@@ -140,6 +140,7 @@ type authWorld struct {
 	// namedRealms[H]: realm hosts that registry H has named in a Bearer challenge so far;
 	// basicChallenged[H]: H has issued a Basic challenge so far.
 	namedRealms     map[string]map[string]bool
+	namedRealmURLs  map[string]map[string]bool // full realm URLs named by each registry
 	basicChallenged map[string]bool
 	rt              http.RoundTripper
 	latency func() time.Duration
@@ -151,7 +152,7 @@ func (w *authWorld) now() time.Time { return time.Now() }
 
 func newAuthWorld(env *core.Env, hosts []*regHost) *authWorld {
 	w := &authWorld{env: env, c: env.C, hosts: map[string]*regHost{}, realms: map[string]*regHost{}, issued: map[string]*issuedToken{},
-		namedRealms: map[string]map[string]bool{}, basicChallenged: map[string]bool{}}
+		namedRealms: map[string]map[string]bool{}, namedRealmURLs: map[string]map[string]bool{}, basicChallenged: map[string]bool{}}
 	w.tr = &simnet.Transport{Env: env, Hosts: map[string]http.Handler{}}
 	for _, h := range hosts {
 		h := h
@@ -219,6 +220,19 @@ func (w *authWorld) challenge(h *regHost, demand string) []string {
 		scopeText = strings.Join(fs, " ")
 	case "duplicate":
 		scopeText = demand + " " + demand
+	case "more-actions":
+		// a strict superset of the demand on the same repositories, written in a
+		// non-canonical order ("push,pull"): the union with the required scope adds
+		// nothing, so the token request must carry exactly this text
+		var fs []string
+		for _, f := range strings.Fields(demand) {
+			p := strings.SplitN(f, ":", 3)
+			if len(p) == 3 && p[0] == "repository" && p[2] == "pull" {
+				f = p[0] + ":" + p[1] + ":push,pull"
+			}
+			fs = append(fs, f)
+		}
+		scopeText = strings.Join(fs, " ")
 	}
 	realm := h.realmURL
 	bearer := fmt.Sprintf(`Bearer realm=%s,service=%s,scope=%s`, quoteParam(realm), quoteParam(h.service), quoteParam(scopeText))
@@ -259,6 +273,10 @@ func (w *authWorld) serveRegistry(h *regHost, rw http.ResponseWriter, req *http.
 						w.namedRealms[h.name] = map[string]bool{}
 					}
 					w.namedRealms[h.name][u.Host] = true
+					if w.namedRealmURLs[h.name] == nil {
+						w.namedRealmURLs[h.name] = map[string]bool{}
+					}
+					w.namedRealmURLs[h.name][h.realmURL] = true
 				}
 			}
 			if o != nil && strings.HasPrefix(c, "Bearer ") && h.mode != "malformed" {
